@@ -1,6 +1,7 @@
 #!/usr/bin/env python3
 """rulecov.py [names...] : rule-level mutation test of the checker. /verif/handmut/*.json each describe one small edit of
-varlink/go that breaks one named rule ({"file","old","new","count","expect":{"Cnn":["rule",...]},"why"}). The edit is
+varlink/go that breaks one named rule ({"file","old","new","count","expect":{"Cnn":["rule",...]},"why"}; an optional "base_patch" names a behaviour-preserving refactoring from /verif/benign
+that is applied first, so that the break is made in refactored code). The edit is
 made in a scratch copy of /repo (outside /repo and /verif, removed afterwards), the copy must still compile, and the
 check of each expected property must exit 1 naming (at least) the expected rule(s). Complements /verif/seeded (changes
 written by independent agents) by making sure every rule has been seen to fire at least once.
@@ -21,6 +22,10 @@ def one(sp):
     ev = tempfile.mkdtemp(prefix='hmev-', dir='/tmp')
     try:
         subprocess.run(['rsync', '-a', '--exclude', '.git', '/repo/', wt + '/'], check=True)
+        if d.get('base_patch'):
+            a = subprocess.run(['git', 'apply', os.path.join(V, d['base_patch'])], cwd=wt, capture_output=True, text=True)
+            if a.returncode != 0:
+                return name, False, 'base patch does not apply: ' + a.stderr[:200]
         edits = d.get('edits') or [d]
         for e in edits:
             path = os.path.join(wt, e['file'])
